@@ -279,7 +279,14 @@ func (g *evGen) stmt(d int) string {
 	if d <= 0 || g.size <= 0 {
 		return "(vtr " + g.tr() + ")"
 	}
-	switch g.r.Intn(12) {
+	switch g.r.Intn(13) {
+	case 12:
+		// the rest lists of all calls mapcar makes, collected and traced as a whole: each call has its own list
+		g.count("rest-collect")
+		rn := g.fresh("r")
+		return fmt.Sprintf("(vtr (mapcar (lambda (&rest %s) %s) %s %s))", rn, rn,
+			g.sub("call.arg", func() string { return g.sub("mapcar.list", func() string { return g.expr(tL, d-1) }) }),
+			g.sub("call.arg", func() string { return g.sub("mapcar.list", func() string { return g.expr(tL, d-1) }) }))
 	case 0, 1, 2:
 		return "(vtr " + g.tr() + ")"
 	case 3, 4:
@@ -675,6 +682,15 @@ func (g *evGen) fnExpr(arity, d int, immediate bool, consumer string) string {
 		ps[i] = g.freshIn("p", usedP)
 		nv[i] = gvar{name: ps[i], typ: tI}
 	}
+	plist := strings.Join(ps, " ")
+	if g.r.Chance(25) {
+		// (p… &rest r): the last k parameters are collected in a list made for the call
+		g.count("lambda-rest")
+		k := g.r.Intn(arity + 1)
+		rn := g.fresh("r")
+		plist = strings.TrimSpace(strings.Join(ps[:k], " ") + " &rest " + rn)
+		nv = append(nv[:k:k], gvar{name: rn, typ: tL})
+	}
 	savedT, savedIn, savedHeld := g.targets, g.inFn, g.held
 	escaping := g.r.Chance(30)
 	var cname, cinit string
@@ -702,9 +718,9 @@ func (g *evGen) fnExpr(arity, d int, immediate bool, consumer string) string {
 	})
 	g.targets, g.inFn, g.held = savedT, savedIn, savedHeld
 	if escaping {
-		return fmt.Sprintf("(let ((%s %s)) (lambda (%s) %s))", cname, cinit, strings.Join(ps, " "), body)
+		return fmt.Sprintf("(let ((%s %s)) (lambda (%s) %s))", cname, cinit, plist, body)
 	}
-	return fmt.Sprintf("(lambda (%s) %s)", strings.Join(ps, " "), body)
+	return fmt.Sprintf("(lambda (%s) %s)", plist, body)
 }
 
 // escapedUpdate: a statement assigning the captured variable c from one of the nested scopes a closure body can
@@ -1032,7 +1048,7 @@ func (g *evGen) blockExpr(t, d int) string {
 
 // exitOrCtl: an exit to a reachable target, an error, or a control form around a body
 func (g *evGen) exitOrCtl(t, d int) string {
-	return g.exitOrCtlKind(t, d, g.r.Intn(10))
+	return g.exitOrCtlKind(t, d, g.r.Intn(12))
 }
 
 func (g *evGen) exitOrCtlKind(t, d, kind int) string {
@@ -1140,6 +1156,42 @@ func (g *evGen) exitOrCtlKind(t, d, kind int) string {
 			}
 		}
 		return g.blockExpr(t, d)
+	case 10:
+		// (recover sym on-recover form…): an error in the forms is replaced by the value of the on-recover form
+		g.count("recover")
+		rv := g.fresh("r")
+		on := g.sub("recover.on-recover", func() string { return g.expr(t, d-1) })
+		var parts []string
+		n := g.r.Intn(3)
+		for i := 0; i < n; i++ {
+			parts = append(parts, g.sub("recover.body", func() string {
+				if g.r.Chance(35) {
+					return g.exitOrCtlKind(tI, d-1, 3) // an error
+				}
+				return g.stmt(d - 1)
+			}))
+		}
+		parts = append(parts, g.sub("recover.last", func() string { return g.expr(t, d-1) }))
+		return fmt.Sprintf("(recover %s %s %s)", rv, on, strings.Join(parts, " "))
+	case 11:
+		// with-open-file: the stream is remembered and probed by a cleanup form that runs on every path
+		g.count("with-open-file")
+		h, sv := g.fresh("h"), g.fresh("s")
+		restore := g.enter("let.last")
+		restore2 := g.enter("unwind-protect.protected")
+		var parts []string
+		if g.r.Chance(50) {
+			parts = append(parts, fmt.Sprintf("(vtr (vopen %s))", sv))
+		}
+		parts = append(parts, g.seq("with-open-file", t, d, 2))
+		restore2()
+		restore()
+		opts := ""
+		if g.r.Chance(30) {
+			opts = " :direction :input"
+		}
+		return fmt.Sprintf("(let ((%s nil)) (unwind-protect (with-open-file (%s \"/dev/null\"%s) (setq %s %s) %s) (vtr (vopen %s))))",
+			h, sv, opts, h, sv, strings.Join(parts, " "), h)
 	}
 	return g.blockExpr(t, d)
 }
@@ -1202,6 +1254,12 @@ func (g *evGen) defun(recursive bool) string {
 	for i := range ps {
 		ps[i] = g.freshIn("p", usedP)
 		nv[i] = gvar{name: ps[i], typ: tI}
+	}
+	restDefun := !recursive && g.r.Chance(20)
+	if restDefun {
+		// (defun f (p… &rest r) …): the last argument of every call arrives as a one-element list
+		g.count("defun-rest")
+		nv[arity-1].typ = tL
 	}
 	savedT, savedIn, savedIter, savedVars := g.targets, g.inFn, g.iter, g.vars
 	g.targets, g.inFn, g.iter = nil, true, 4
@@ -1283,6 +1341,9 @@ func (g *evGen) defun(recursive bool) string {
 		g.funs = append(g.funs, gfun{name: name, arity: arity})
 	}
 	text := fmt.Sprintf("(defun %s (%s) %s)", name, strings.Join(ps, " "), body)
+	if restDefun {
+		text = fmt.Sprintf("(defun %s (%s) %s)", name, strings.TrimSpace(strings.Join(ps[:arity-1], " ")+" &rest "+ps[arity-1]), body)
+	}
 	if recursive {
 		// the recursive function is only called through a wrapper with a small literal count
 		w := g.fresh("f")
